@@ -18,6 +18,13 @@ SimRoots == {[t |-> 1, ev |-> 1, term |-> FALSE], [t |-> 5, ev |-> 1, term |-> F
 (* the adaptive replay: steps of 2 and 4 ticks so that a clamped last step can itself be halved by the integrator; one root per event function *)
 SimDTSAd == {2, 4}
 SimRootsAd == {[t |-> 1, ev |-> 1, term |-> FALSE], [t |-> 3, ev |-> 2, term |-> TRUE], [t |-> 3, ev |-> 3, term |-> FALSE]}
+(* a terminal root strictly inside a CLAMPED LAST step, at an even distance from its start (the landing call halves its step on the  *)
+(* tick grid): from 0 in steps of 8 to the target 12 - last step [8, 12], terminal root at 10 - and the mirror image from 24            *)
+LandT0S == {0, 24}
+LandTFS == {16}
+LandDTS == {8}
+LandTARGETS == {12, 20, 4}
+LandRoots == {[t |-> 10, ev |-> 1, term |-> TRUE], [t |-> 14, ev |-> 1, term |-> TRUE], [t |-> 4, ev |-> 2, term |-> FALSE]}
 NoCb == {}
 Cb1 == {1, 2}
 NoDev == {}
@@ -31,5 +38,6 @@ DevClampAdoptsDt == {"clampAdoptsDt"}
 DevRecordStepTooShort == {"recordStepTooShort"}
 DevPerCallSuppression == {"perCallSuppression"}
 DevBisectAfterTurn == {"bisectAfterTurn"}
+DevLandingStepCarriedOver == {"landingStepCarriedOver"}
 DevCode == {"perCallSuppression"}      \* the deviations the real code has (observations, DESIGN.md section 8)
 =============================================================================
